@@ -38,4 +38,14 @@ package ws
 //@
 //@ func (*listener).Close
 //@   loop 1 complete
+//@   ghost npend = len(l.pending) at call:Lock#1
+//@   at call:Lock#1 set swept:bool = false
+//@   at call:Close#2 set swept:bool = true
+//@   loop 1 invariant swept || rangeindex < 0
+//@   ensures isnil(result) ==> (swept || npend == 0) && len(l.pending) == 0 && l.closed && !l.running
 //@   before call:Close#2 assert callee_is("(*transport/ws.wsPipe).Close")
+//@
+//@ func (*listener).SetOption
+//@   before call:set#1 assert n == OptionWebSocketCheckOrigin && is_bool(v) && bool_of(v) ==> isnil(l.ug.CheckOrigin)
+//@   before call:set#1 assert n == OptionWebSocketCheckOrigin && is_bool(v) && !bool_of(v) ==> !isnil(l.ug.CheckOrigin)
+//@   before call:set#1 assert arg0 == n && arg1 == v
